@@ -1,6 +1,6 @@
 (* C14: the MES system-call emulation (TRAPA #0) of the model = the reference calls. *)
 From Coq Require Import Bool ZArith Lia ZifyBool List.
-From K Require Import Lib.Bits Lib.Types Model.Machine Model.Bus Model.Addressing Model.Alu Model.Exec
+From K Require Import Lib.Bits Lib.Types Lib.Utf8 Model.Machine Model.Bus Model.Addressing Model.Alu Model.Exec
   Spec.ISA Spec.Domains Proofs.RegProofs Proofs.MemProofs.
 Import ListNotations.
 Open Scope bool_scope. Open Scope Z_scope.
@@ -80,7 +80,8 @@ Proof.
     destruct (Hbuf _ _ eq_refl eq_refl) as [Hbl Hlen]. rewrite Z.min_l by lia.
     unfold bind at 1. rewrite read_bytes_spec by (try lia; rewrite Z2Nat.id by lia; exact Hbl).
     destruct (bytes_at s buf (Z.to_nat len)) as [bs|]; cbn [ISA.obind]; [|reflexivity].
-    unfold bind, modify, send_cpu_message. cbn [sock set_console console cbus].
+    unfold bind at 1. destruct (utf8_valid bs); cbn [guard negb]; [|reflexivity].
+    unfold bind, ret, modify, send_cpu_message. cbn [sock set_console console cbus].
     destruct (sock s); reflexivity.
 Qed.
 
